@@ -127,6 +127,29 @@ def canon(pv):
     return ["list", pv[1]] if pv[0] == "tuple" else pv
 
 
+def as_topic_value(ts, pv):
+    """ORACLE side: the value `pv` a Python program assigns / declares as default, as a value of the
+    topic's type `ts` -- the same number: an int (or bool) on a double topic is that float, a bool on
+    an int topic 0/1 (Python's numeric tower; the generated ints are exactly representable).  Values of
+    the topic's own type, and everything the tower does not cover, are returned as they are."""
+    pv = canon(pv)
+
+    def conv(s, base):
+        if base == "float" and s[0] in ("int", "bool"):
+            return ["float", int(s[1]) * 64]
+        if base == "int" and s[0] == "bool":
+            return ["int", int(s[1])]
+        return s
+    if ts not in TS_KIND:
+        return pv
+    base, arr = TS_KIND[ts]
+    if arr and pv[0] == "list":
+        return ["list", [conv(e, base) for e in pv[1]]]
+    if not arr and pv[0] != "list":
+        return conv(pv, base)
+    return pv
+
+
 def _f64(x):
     x = float(x)
     n = x * 64.0
@@ -509,8 +532,46 @@ def shadowed_members(h):
     return [m for body in hier_mro(h) for m in body if eff[m["attr"]] is not m]
 
 
-def class_source(decls, name, split, src, tkind=None, hier=None):
-    """(source text, {default variable: object}) of the module defining class `name`."""
+def tunable_kwargs(d):
+    kw = {}
+    if d.get("wd") is not None:
+        kw["writeDefault"] = d["wd"]
+    if d.get("subtable") is not None:
+        kw["subtable"] = d["subtable"]
+    return kw
+
+
+def shared_object(mt, pool, d):
+    """the tunable OBJECT of a declaration that carries "obj": created once per history (by the first
+    class body that binds it) and bound by every declaration with the same "obj" number, each under its
+    own attribute name -- `default_kp = tunable(0.5)` at module level, `intake_kp = default_kp` in one
+    class, `shooter_kp = default_kp` in another.  A subscript hint (form 0) is part of the object."""
+    if d["obj"] not in pool:
+        default = to_py(d["default"])
+        h = d.get("hint")
+        if h is not None and d.get("form", 0) == 0:
+            pool[d["obj"]] = mt.tunable[hint_to_py(h, d.get("flavor", 0))](default, **tunable_kwargs(d))
+        else:
+            pool[d["obj"]] = mt.tunable(default, **tunable_kwargs(d))
+    return pool[d["obj"]]
+
+
+def describe_shared(d):
+    """source text that creates the shared object of declaration d."""
+    h = d.get("hint")
+    args = json.dumps(d["default"])
+    if d.get("wd") is not None:
+        args += ", writeDefault=%r" % bool(d["wd"])
+    if d.get("subtable") is not None:
+        args += ", subtable=%r" % d["subtable"]
+    if h is not None and d.get("form", 0) == 0:
+        return "tunable[%s](%s)" % (hint_src(h, d.get("flavor", 0)), args)
+    return "tunable(%s)" % args
+
+
+def class_source(decls, name, split, src, tkind=None, hier=None, mkobj=None):
+    """(source text, {default variable: object}) of the module defining class `name`.
+    mkobj(d): the shared tunable object of a declaration with "obj" (None: only for printing)."""
     env = {}
     lines = []
     nvar = [0]
@@ -530,13 +591,22 @@ def class_source(decls, name, split, src, tkind=None, hier=None):
                 env[var] = to_py(d["plain"])
                 lines.append("    %s = %s" % (d["attr"], var))
                 continue
+            h, form = d.get("hint"), d.get("form", 0)
+            if "obj" in d:
+                # a module-level tunable object, bound here under this class's own name for it
+                var = "_shared%d" % d["obj"]
+                env[var] = mkobj(d) if mkobj is not None else "<%s>" % describe_shared(d)
+                if h is None or form == 0:
+                    lines.append("    %s = %s" % (d["attr"], var))
+                else:
+                    lines.append("    %s: %s = %s" % (d["attr"], ann_src(h, form, d.get("flavor", 0), d.get("q", 0)), var))
+                continue
             env[var] = to_py(d["default"])
             args = var
             if d.get("wd") is not None:
                 args += ", writeDefault=%r" % bool(d["wd"])
             if d.get("subtable") is not None:
                 args += ", subtable=%r" % d["subtable"]
-            h, form = d.get("hint"), d.get("form", 0)
             if h is None:
                 lines.append("    %s = tunable(%s)" % (d["attr"], args))
             elif form == 0:
@@ -567,11 +637,12 @@ def class_source(decls, name, split, src, tkind=None, hier=None):
 _MODN = [0]
 
 
-def make_class_src(mt, decls, name, split, src, tkind=None, hier=None):
+def make_class_src(mt, decls, name, split, src, tkind=None, hier=None, pool=None):
     """the class statement as it stands in a user's module (typing.get_type_hints resolves string
     annotations in sys.modules[cls.__module__].__dict__: the module is registered while it runs)."""
     import types
-    text, env = class_source(decls, name, split, src, tkind, hier)
+    pool = {} if pool is None else pool
+    text, env = class_source(decls, name, split, src, tkind, hier, mkobj=lambda d: shared_object(mt, pool, d))
     _MODN[0] += 1
     modname = "c09gen_%d" % _MODN[0]
     mod = types.ModuleType(modname)
@@ -585,15 +656,17 @@ def make_class_src(mt, decls, name, split, src, tkind=None, hier=None):
     return mod.__dict__[name]
 
 
-def make_class(mt, decls, name="Gen", split=0, src=0, tkind=None, hier=None):
-    """a class with the tunables `decls` (dict: attr default hint form flavor q subtable wd);
+def make_class(mt, decls, name="Gen", split=0, src=0, tkind=None, hier=None, pool=None):
+    """a class with the tunables `decls` (dict: attr default hint form flavor q subtable wd [obj]);
     the first `split` of them live on a base class (dir(cls) must find them); tkind: how bool()
     of an instance is computed (see TRUTH_SRC); hier: the class is a hierarchy with redefinitions
-    (then `decls` is what it resolves to and is not used to build it)."""
+    (then `decls` is what it resolves to and is not used to build it); pool: the shared tunable
+    objects of the history (declarations with the same "obj" bind ONE object, see shared_object)."""
     import typing
+    pool = {} if pool is None else pool
     src = eff_src(hier_tunables(hier) if hier is not None else decls, src)
     if src:
-        return make_class_src(mt, decls, name, split, src, tkind, hier)
+        return make_class_src(mt, decls, name, split, src, tkind, hier, pool)
 
     def ns_of(ds):
         ns, ann = {}, {}
@@ -601,22 +674,19 @@ def make_class(mt, decls, name="Gen", split=0, src=0, tkind=None, hier=None):
             if is_plain(d):
                 ns[d["attr"]] = to_py(d["plain"])
                 continue
-            kw = {}
-            if d.get("wd") is not None:
-                kw["writeDefault"] = d["wd"]
-            if d.get("subtable") is not None:
-                kw["subtable"] = d["subtable"]
+            kw = tunable_kwargs(d)
             default = to_py(d["default"])
             h = d.get("hint")
+            shared = shared_object(mt, pool, d) if "obj" in d else None
             if h is None:
-                ns[d["attr"]] = mt.tunable(default, **kw)
+                ns[d["attr"]] = shared if shared is not None else mt.tunable(default, **kw)
                 continue
             ph = hint_to_py(h, d.get("flavor", 0))
             form = d.get("form", 0)
             if form == 0:
-                ns[d["attr"]] = mt.tunable[ph](default, **kw)
+                ns[d["attr"]] = shared if shared is not None else mt.tunable[ph](default, **kw)
             else:
-                ns[d["attr"]] = mt.tunable(default, **kw)
+                ns[d["attr"]] = shared if shared is not None else mt.tunable(default, **kw)
                 ann[d["attr"]] = (typing.ClassVar[mt.tunable[ph]] if form == 1 else
                                   mt.tunable[ph] if form == 2 else
                                   typing.ClassVar[ph] if form == 4 else ph)
@@ -859,13 +929,39 @@ def gen_hint(r, kind, need):
                      ["gen", "tuple", [base, base]], ["gen", "tuple", [base]], ["gen", "tuple", [base, base, base]]])
 
 
+SMALL_INTS = [0, 0, 1, 1, -1, 2, 3, 7, 40, -5, 100, 255]
+
+
+def gen_int_literal(r, kind):
+    """an int-valued literal where the topic type (from the hint) is double / double[]"""
+    if not kind[1]:
+        return ["int", r.choice(SMALL_INTS)]
+    return [r.choice(["list", "list", "tuple"]), [["int", r.choice(SMALL_INTS)] for _ in range(r.choice([1, 1, 2, 3]))]]
+
+
+def literal_is_int(d):
+    """a tunable of a double / double[] topic (by its hint) whose default literal is int-valued"""
+    if d["kind"][0] != "float":
+        return False
+    v = d["default"]
+    if d["kind"][1]:
+        return bool(v[1]) and v[1][0][0] == "int"
+    return v[0] == "int"
+
+
 def gen_decl(r, attr, kind=None):
     kind = kind or r.choice(KINDS)
     default = gen_value(r, kind, pyform=True, as_default=True)
     if kind[1] and kind[0] in ("T2", "T3") and default[1] and r.random() < 0.5:
         default = [default[0], []]               # (an empty struct-array default reads back as itself)
     empty_seq = kind[1] and not default[1]
-    hint = gen_hint(r, kind, empty_seq)
+    literal_int = False
+    if kind[0] == "float" and r.random() < 0.4:
+        # the topic type comes from the HINT, the default is merely a convenient literal of another
+        # numeric type:  kp: float = tunable(0),  gains = tunable[list[float]]([1, 2])
+        default = gen_int_literal(r, kind)
+        empty_seq, literal_int = False, True
+    hint = gen_hint(r, kind, empty_seq or literal_int)
     return {"attr": attr, "kind": list(kind), "default": default, "hint": hint,
             "form": r.randrange(5), "flavor": r.randrange(2), "q": r.choice([0, 0, 0, 1, 2]),
             "subtable": r.choice([None, None, None, "cfg", "s/t", "", "x"]),
@@ -937,23 +1033,47 @@ def gen_hier(r, ds, tag):
 
 
 ATTR_POOL = ["x", "y", "gain", "kP", "speed", "limits", "name", "x_", "xy", "flag"]
+SHARED_ATTR_POOL = ["kp", "intake_kp", "shooter_kp", "drive_kp", "preset", "Zlimit", "breaker", "a_cur"]
 NAME_POOL = ["a", "ab", "a_b", "b", "Mode A", "robot", "components", "x"]
 
 
 def gen_case(r, tag):
     """one history; `tag` makes every topic name of the case unique in the NT instance."""
-    ncls = r.choice([1, 1, 2])
+    ncls = r.choice([1, 1, 2, 2, 3])
     classes, split, srcs, tkinds, hiers = [], [], [], [], []
+    used = []
     for c in range(ncls):
         srcs.append(r.choice([0, 1, 2, 2]))
         tkinds.append(r.choice([None, None, None, None, "len", "len", "bool", "list"]))
-        n = r.choice([1, 2, 3, 4, 5, 6])
+        n = r.choice([1, 2, 3, 4, 5, 6] if ncls < 3 else [1, 2, 3])
         attrs = r.sample(ATTR_POOL, n)
+        used.append(set(attrs))
         ds = [gen_decl(r, "%s_%s" % (a, tag)) for a in attrs]
         if r.random() < 0.3:
             ds.append(gen_decl(r, "_hidden_%s" % tag))
-        ds.sort(key=lambda d: d["attr"])            # dir(cls) order
         classes.append(ds)
+    # SHARED tunable objects: one object (a module-level preset) bound by two or more classes of the
+    # history, by each under a name of its own (sometimes the same name), at most once per class
+    if ncls >= 2 and r.random() < 0.6:
+        for obj in range(r.choice([1, 1, 2])):
+            proto = gen_decl(r, "?")
+            annotated = proto["hint"] is not None and r.random() < 0.6
+            same_name = r.random() < 0.2
+            a0 = r.choice(SHARED_ATTR_POOL)
+            for c in r.sample(range(ncls), r.choice([2, 2, ncls])):
+                free = [a for a in SHARED_ATTR_POOL if a not in used[c]]
+                a = a0 if (same_name and a0 not in used[c]) else r.choice(free)
+                used[c].add(a)
+                d = json.loads(json.dumps(proto))
+                d["attr"], d["obj"] = "%s_%s" % (a, tag), obj
+                if proto["hint"] is not None:
+                    # the hint is part of the object (a subscript) or every class annotates its own name
+                    d["form"] = r.randrange(1, 5) if annotated else 0
+                    d["q"] = r.choice([0, 0, 0, 1, 2]) if annotated else 0
+                classes[c].append(d)
+    for c in range(ncls):
+        ds = classes[c]
+        ds.sort(key=lambda d: d["attr"])            # dir(cls) order
         if r.random() < 0.4:
             hiers.append(gen_hier(r, ds, tag))
             split.append(0)
@@ -1062,7 +1182,14 @@ def gen_case(r, tag):
         i = r.choice(list(bound) if r.random() < 0.95 else list(range(ninst)))
         d = r.choice(classes[insts[i]])
         if k < 0.33:
-            ops.append(["pyw", i, d["attr"], gen_value(r, tuple(d["kind"]), pyform=True)])
+            if d["kind"][0] == "float" and r.random() < 0.12:
+                ops.append(["pyw", i, d["attr"], gen_int_literal(r, tuple(d["kind"]))])   # an int on a double topic
+            elif literal_is_int(d) and r.random() < 0.5:
+                # default literal of another numeric type than the topic: a value ONLY the topic's type can hold
+                frac = ["float", r.choice([48, 1, -3, 33, r.randrange(-640, 640) * 2 + 1])]
+                ops.append(["pyw", i, d["attr"], frac if not d["kind"][1] else ["list", [frac] + [gen_scalar(r, "float") for _ in range(r.choice([0, 1]))]]])
+            else:
+                ops.append(["pyw", i, d["attr"], gen_value(r, tuple(d["kind"]), pyform=True)])
         elif k < 0.63:
             ops.append(["pyr", i, d["attr"]])
         elif k < 0.78 and known_keys:
@@ -1154,8 +1281,9 @@ def exec_case(mt, case):
     keep = []                                       # keeps every entry / publisher alive
     writer = NtWriter()
     keep.append(writer)
+    pool = {}                                       # the shared tunable objects of this history
     try:
-        clss = [make_class(mt, ds, "Cls%d" % k, case["split"][k], case_src(case, k), case_tkind(case, k), case_hier(case, k))
+        clss = [make_class(mt, ds, "Cls%d" % k, case["split"][k], case_src(case, k), case_tkind(case, k), case_hier(case, k), pool)
                 for k, ds in enumerate(case["classes"])]
     except Exception as e:
         return [["classraise", type(e).__name__, str(e)[:120]]] * len(case["ops"])
@@ -1263,7 +1391,64 @@ def decl_to_coq(d, src=0):
         coq_opt(d.get("subtable"), coq_string), coq_bool(d.get("wd") is not False))
 
 
+def case_has_shared(case):
+    return any("obj" in m for k in range(len(case["classes"])) for m in case_all_decls(case, k))
+
+
+def program_to_coq(case):
+    """the classes of a history with SHARED tunable objects as a Model.program: the objects (shared
+    ones once), the class statements in execution order with what each binds under which name (and
+    annotation), and per class the positions of the statements of its MRO.  The model computes the
+    hint behind every object's _topic_type (last __set_name__ call), resolves dir/getattr and takes
+    the NAME from the class, the rest from the object (Model.prog_class)."""
+    objs, shared, stmts, mros = [], {}, [], []
+
+    def obind(m, es):
+        if is_plain(m):
+            return "(OPlain %s)" % cs(m["attr"])
+        if m.get("hint") is None:
+            orig, ann = "None", "None"
+        else:
+            sp = "(spell %s %s)" % (spelling_to_coq(spelling(m, es)), hint_to_coq(m["hint"]))
+            orig, ann = "(s_orig %s)" % sp, "(s_ann %s)" % sp
+        if "obj" in m and m["obj"] in shared:
+            oid = shared[m["obj"]]
+        else:
+            oid = len(objs)
+            objs.append("(mktobj %s %s %s %s)" % (to_coq(m["default"]), orig, coq_opt(m.get("subtable"), coq_string),
+                                                 coq_bool(m.get("wd") is not False)))
+            if "obj" in m:
+                shared[m["obj"]] = oid
+        return "(OTun %s %s %s)" % (cs(m["attr"]), coq_nat(oid), ann)
+
+    def stmt(body, es):
+        stmts.append(coq_list([obind(m, es) for m in body]))
+        return len(stmts) - 1
+
+    for k, ds in enumerate(case["classes"]):
+        es = case_eff_src(case, k)
+        h = case_hier(case, k)
+        if h is not None:                           # executed: mixin, then the chain base-most first
+            mix = stmt(h["mixin"], es) if h.get("mixin") is not None else None
+            lv = [stmt(body, es) for body in h["levels"]]
+            mros.append(list(reversed(lv)) + ([mix] if mix is not None else []))
+        elif case["split"][k]:
+            base = stmt(ds[:case["split"][k]], es)
+            mros.append([stmt(ds[case["split"][k]:], es), base])
+        else:
+            mros.append([stmt(ds, es)])
+    ixs = [coq_list([coq_nat(i) for i in m]) for m in mros]
+    return "(mkprog %s %s)" % (coq_list(objs), coq_list(stmts)), ixs
+
+
 def case_to_coq(case, obs):
+    if case_has_shared(case):
+        prog, ixs = program_to_coq(case)
+        lets = "let pr := %s in " % prog + "".join("let c%d := prog_class_list pr %s in " % (k, x) for k, x in enumerate(ixs))
+        guard = "prog_in_model pr %s" % coq_list(ixs)
+    else:
+        lets, guard = None, "true"
+
     def class_to_coq(k, ds):
         es = case_eff_src(case, k)
         h = case_hier(case, k)
@@ -1274,7 +1459,8 @@ def case_to_coq(case, obs):
             coq_list(["(MPlain %s)" % cs(m["attr"]) if is_plain(m) else "(MTun %s)" % decl_to_coq(m, es) for m in body])
             for body in hier_mro(h)])
 
-    lets = "".join("let c%d := %s in " % (k, class_to_coq(k, ds)) for k, ds in enumerate(case["classes"]))
+    if lets is None:
+        lets = "".join("let c%d := %s in " % (k, class_to_coq(k, ds)) for k, ds in enumerate(case["classes"]))
     ops = []
     pre = []
     # creation of the owner objects: an instance of a class with __len__ / __bool__ starts falsy
@@ -1298,7 +1484,7 @@ def case_to_coq(case, obs):
             ops.append("XSetTruth %s %s" % (coq_nat(op[1]), truth_to_coq(tk, op[2])))
         else:
             ops.append("XOp (NtRead %s)" % cs(op[1]))
-    return "(%s(%s, %s))" % (lets, coq_list(ops), coq_list(pre + [obs_to_coq(o) for o in obs]))
+    return "(%s(%s, (%s, %s)))" % (lets, guard, coq_list(ops), coq_list(pre + [obs_to_coq(o) for o in obs]))
 
 
 CASES_HEADER = ("From Coq Require Import String List Bool ZArith NArith.\n"
@@ -1314,8 +1500,8 @@ def cases_file(pairs):
         defs = _STRTAB.defs()
     finally:
         _STRTAB = None
-    return (CASES_HEADER + defs + "Definition cases : list (list xop * list obs) :=\n [%s].\n"
-            "Eval vm_compute in (bad_from xhist_ok 0 cases).\n" % body)
+    return (CASES_HEADER + defs + "Definition cases : list (bool * (list xop * list obs)) :=\n [%s].\n"
+            "Eval vm_compute in (bad_from ghist_ok 0 cases).\n" % body)
 
 
 # ---------------------------------------------------------------------------
@@ -1360,7 +1546,7 @@ def oracle_case(case, obs):
                 key = doc_key(op[2], op[3], d["subtable"], d["attr"])
                 ts = doc_topic(d["default"], d["hint"])
                 if d["wd"] is not False or key not in topics:
-                    topics[key] = [ts, canon(d["default"])]
+                    topics[key] = [ts, as_topic_value(ts, d["default"])]
                 b[d["attr"]] = (key, ts)
             bind[op[1]] = b
         elif op[0] == "pyw":
@@ -1370,7 +1556,7 @@ def oracle_case(case, obs):
             else:
                 if o[0] != "wrote":
                     return fail("c09-write-raises", "attribute assignment raised %r (%s)" % (o, owner_state(n, op[1])))
-                topics[e[0]] = [e[1], canon(op[3])]
+                topics[e[0]] = [e[1], as_topic_value(e[1], op[3])]
         elif op[0] == "pyr":
             e = bind.get(op[1], {}).get(op[2])
             if e is None:
@@ -1395,9 +1581,28 @@ def oracle_case(case, obs):
     return None
 
 
+def shared_defs(case):
+    """the module-level definitions of the shared tunable objects of the history (first binder wins,
+    as in shared_object)."""
+    seen, out = set(), []
+    for k in range(len(case["classes"])):
+        h = case_hier(case, k)
+        bodies = (([h["mixin"]] if h.get("mixin") is not None else []) + list(h["levels"])) if h is not None else [case["classes"][k]]
+        for body in bodies:
+            for m in body:
+                if "obj" in m and m["obj"] not in seen:
+                    seen.add(m["obj"])
+                    out.append("_shared%d = %s" % (m["obj"], describe_shared(m)))
+    return out
+
+
 def describe_decl(d, src):
     """one line: the tunable as written."""
     h, form = d.get("hint"), d.get("form", 0)
+    if "obj" in d:
+        if h is None or form == 0:
+            return "%s = _shared%d" % (d["attr"], d["obj"])
+        return "%s: %s = _shared%d" % (d["attr"], ann_src(h, form, d.get("flavor", 0), d.get("q", 0) if src else 0), d["obj"])
     if h is None:
         return "%s = tunable(%s)" % (d["attr"], json.dumps(d["default"]))
     if form == 0:
@@ -1419,12 +1624,15 @@ def describe_classes(case):
             out.append("[%s] %s" % (how, describe_hier(h, "Cls%d" % k, src)))
         else:
             out.append("[%s] %s" % (how, "; ".join(describe_decl(d, src) for d in ds)))
-    return " | ".join(out)
+    sd = shared_defs(case)
+    return ("module level: %s || " % "; ".join(sd) if sd else "") + " | ".join(out)
 
 
 def describe_member(m, src):
     if is_plain(m):
         return "%s = %s (not a tunable)" % (m["attr"], json.dumps(m["plain"]))
+    if "obj" in m:
+        return describe_decl(m, src)
     extra = "".join(", %s=%s" % (k2, json.dumps(m[k1])) for k1, k2 in (("wd", "writeDefault"), ("subtable", "subtable"))
                     if m.get(k1) is not None)
     return describe_decl(m, src)[:-1] + extra + ")"
@@ -1560,6 +1768,16 @@ def shrink_case(mt, case, fresh_tag, budget=220):
         v = failing(cand)
         if v is not None and v["fingerprint"] == fp:
             best = cand
+    # shared tunable objects: is the sharing needed for the failure (every binder its own object)?
+    if budget > 0 and case_has_shared(best):
+        cand = json.loads(json.dumps(best))
+        for k in range(len(cand["classes"])):
+            for m in list(case_all_decls(cand, k)) + list(cand["classes"][k]):
+                m.pop("obj", None)
+        budget -= 1
+        v = failing(cand)
+        if v is not None and v["fingerprint"] == fp:
+            best = cand
     # the spelling: is the way the class / the hint is written needed for the failure?
     for ci in range(len(best["classes"])):
         for simpler in (0, 1):
@@ -1581,7 +1799,7 @@ def shrink_case(mt, case, fresh_tag, budget=220):
                 for field in ("q", "form", "flavor"):
                     hb = case_hier(best, ci)
                     m = (hb["levels"] + ([hb["mixin"]] if hb.get("mixin") is not None else []))[bi][mi]
-                    if budget <= 0 or not m.get(field):
+                    if budget <= 0 or not m.get(field) or "obj" in m:
                         continue
                     cand = json.loads(json.dumps(best))
                     hc = cand["hier"][ci]
@@ -1594,7 +1812,7 @@ def shrink_case(mt, case, fresh_tag, budget=220):
             continue
         for k in range(len(best["classes"][ci])):
             for field in ("q", "form", "flavor"):
-                if budget <= 0 or not best["classes"][ci][k].get(field):
+                if budget <= 0 or not best["classes"][ci][k].get(field) or "obj" in best["classes"][ci][k]:
                     continue
                 cand = json.loads(json.dumps(best))
                 cand["classes"][ci][k][field] = 0
@@ -1821,14 +2039,18 @@ ROBOT_SRC = '''
 import json, sys, typing
 import magicbot, ntcore
 from magicbot import tunable
+PRESET = tunable(0.25)      # ONE tunable object, bound by three classes under three names
 class Comp:
     gainC09 = tunable(3)
+    kpC09 = PRESET
+    kfC09: float = tunable(0)       # a double topic (hint) with an int default literal
     idsC09: "typing.Sequence[int]" = tunable(())
     flagC09 = tunable(True, subtable="cfg")
     def execute(self): pass
 class Hopper:
     """container-like component: empty (falsy) all the time"""
     capC09 = tunable(5)
+    hop_kpC09 = PRESET
     def __init__(self): self.balls = []
     def __len__(self): return len(self.balls)
     def execute(self): pass
@@ -1837,14 +2059,19 @@ class R(magicbot.MagicRobot):
     right: Comp
     hopper: Hopper
     topC09 = tunable("x")
+    drive_kpC09 = PRESET
     limC09 = tunable[tuple[float, ...]]((), subtable="s/t")
     def createObjects(self): pass
 r = R(); r.robotInit()
 inst = ntcore.NetworkTableInstance.getDefault()
 r.left.gainC09 = 9
 r.hopper.capC09 = 6
+r.left.kfC09 = 0.75
+r.left.kpC09 = 0.5
 out = {"topics": sorted([t.getName(), t.getTypeString()] for t in inst.getTopics() if "C09" in t.getName()),
-       "left": r.left.gainC09, "right": r.right.gainC09, "hopper": repr(r.hopper.capC09), "hopper_falsy": not r.hopper}
+       "left": r.left.gainC09, "right": r.right.gainC09, "hopper": repr(r.hopper.capC09), "hopper_falsy": not r.hopper,
+       "kf": [repr(r.left.kfC09), repr(r.right.kfC09)],
+       "kp": [r.left.kpC09, r.right.kpC09, r.hopper.hop_kpC09, r.drive_kpC09]}
 print("C09JSON" + json.dumps(out))
 '''
 MODE_SRC = '''from __future__ import annotations
@@ -1867,18 +2094,27 @@ ROBOT_EXPECT = [  # (owner, subtable, attr, ntype)
     ('(OAutonomous "Mode A")', "None", "ratesC09", "NDoubleArr"),
     # a container-like component whose instance is falsy
     ('(OComponent "hopper")', "None", "capC09", "NInteger"),
+    # one tunable object under three names in three classes; a float hint over an int literal
+    ('(OComponent "left")', "None", "kpC09", "NDouble"), ('(OComponent "right")', "None", "kpC09", "NDouble"),
+    ('(OComponent "hopper")', "None", "hop_kpC09", "NDouble"), ("ORobot", "None", "drive_kpC09", "NDouble"),
+    ('(OComponent "left")', "None", "kfC09", "NDouble"), ('(OComponent "right")', "None", "kfC09", "NDouble"),
 ]
 ROBOT_DOC = {"/components/left/gainC09": "int", "/components/right/gainC09": "int",
              "/components/left/cfg/flagC09": "boolean", "/components/right/cfg/flagC09": "boolean",
              "/robot/topC09": "string", "/robot/s/t/limC09": "double[]",
              "/autonomous/Mode A/speedC09": "double", "/autonomous/Mode A/cfg/burstC09": "int[]",
              "/components/left/idsC09": "int[]", "/components/right/idsC09": "int[]",
-             "/autonomous/Mode A/ratesC09": "double[]", "/components/hopper/capC09": "int"}
+             "/autonomous/Mode A/ratesC09": "double[]", "/components/hopper/capC09": "int",
+             "/components/left/kpC09": "double", "/components/right/kpC09": "double", "/components/hopper/hop_kpC09": "double",
+             "/robot/drive_kpC09": "double", "/components/left/kfC09": "double", "/components/right/kfC09": "double"}
 
 
 def robot_values_ok(rob):
     """left.gain = 9 reaches only left; the empty (falsy) hopper reads back what was assigned"""
-    return (rob["left"] == 9 and rob["right"] == 3 and rob.get("hopper") == "6" and rob.get("hopper_falsy") is True)
+    return (rob["left"] == 9 and rob["right"] == 3 and rob.get("hopper") == "6" and rob.get("hopper_falsy") is True
+            # left.kf = 0.75 on `kf: float = tunable(0)` reads 0.75 (right keeps 0.0); left.kp = 0.5 on the shared
+            # preset reaches only left's own topic
+            and rob.get("kf") == ["0.75", "0.0"] and rob.get("kp") == [0.5, 0.25, 0.25, 0.25])
 
 
 def run_robot(work):
@@ -1988,7 +2224,8 @@ def violation_of_case(mt, case, shrink=True):
             c, v = c2, v2
     v["case"] = strip_case(c)
     v["observations"] = exec_case(mt, retag(c, fresh_tag()))
-    if any(case_hier(c, k) is not None for k in range(len(c["classes"]))):
+    if any(case_hier(c, k) is not None for k in range(len(c["classes"]))) or case_has_shared(c) \
+            or any(literal_is_int(d) for ds in c["classes"] for d in ds if "kind" in d):
         v["what"] += "   [classes: %s]" % describe_classes(c)
     return v
 
@@ -2148,6 +2385,8 @@ def run(ctx):
                             "" if (m["wd"] is not False) == (e["wd"] is not False) else "/other writeDefault",
                             "" if (m["subtable"] or None) == (e["subtable"] or None) else "/other subtable"))
             for d in ds:
+                if literal_is_int(d):
+                    ctx.count("default-literal=int on a double topic (%s)" % ("subscript" if d.get("form", 0) == 0 else "annotation"))
                 if d.get("hint") is not None:
                     sp = spelling(d, es)
                     ctx.count("hint-spelling=%s" % ("subscript" if sp is None else
@@ -2157,6 +2396,31 @@ def run(ctx):
                 ctx.count("kind=%s%s" % (d["kind"][0], "[]" if d["kind"][1] else ""))
                 ctx.count("writeDefault=%s" % d["wd"])
                 ctx.count("subtable=%s" % ("none" if d["subtable"] is None else "empty" if d["subtable"] == "" else "yes"))
+        binders = {}
+        for k, ds in enumerate(c["classes"]):
+            for d in ds:
+                if "obj" in d:
+                    binders.setdefault(d["obj"], []).append((k, d))
+        ctx.count("shared-objects=%d" % len(binders))
+        for bs in binders.values():
+            names = set(d["attr"] for _, d in bs)
+            ctx.count("shared-object:%d classes/%s/%s" % (len(bs), "same name" if len(names) == 1 else "different names",
+                                                          "no hint" if bs[0][1].get("hint") is None else
+                                                          "subscript" if bs[0][1].get("form", 0) == 0 else "annotated by every class"))
+            # is there an instance of a class that is NOT the last one to bind the object (its name differs from the last)?
+            last_k, last_d = max(bs, key=lambda kd: kd[0])
+            if any(c["insts"][op[1]] == k and d["attr"] != last_d["attr"] for op in c["ops"] if op[0] == "setup" for k, d in bs):
+                ctx.count("shared-object:instance of an earlier class under another name set up")
+        kinds_i = [{d["attr"]: d for d in c["classes"][ci]} for ci in c["insts"]]
+        for op in c["ops"]:
+            if op[0] == "pyw":
+                d = kinds_i[op[1]].get(op[2])
+                if d is not None and d["kind"][0] == "float":
+                    vs = op[3][1] if op[3][0] in ("list", "tuple") else [op[3]]
+                    if any(e[0] == "int" for e in vs):
+                        ctx.count("pyw:int value on a double topic")
+                    elif literal_is_int(d) and any(e[1] % 64 for e in vs):
+                        ctx.count("pyw:non-integral float on a double topic whose default literal is an int")
         ctx.count("instances=%d" % len(c["insts"]))
         for i in range(len(c["insts"])):
             ctx.count("owner-class=%s" % (inst_tkind(c, i) or "ordinary"))
@@ -2184,7 +2448,10 @@ def run(ctx):
         "rule": "histories: 1-2 generated classes (type(), or the source text of a module exec'd, half of those with "
                 "`from __future__ import annotations`) with 1-6 tunables over {bool,int,float,str,bytes,struct x2} x "
                 "{scalar,array}, hints in 5 syntactic forms x {evaluated, postponed, quoted, quoted argument}, subtables, writeDefault True/False/absent, inherited and "
-                "private tunables; 40% of the classes are hierarchies (chain of 1-3 classes, optional mixin) in which names are REDEFINED: the tunable a class "
+                "private tunables; 40% of the float tunables have an INT default literal under a float hint (kp: float = tunable(0)), python-side writes of "
+                "non-integral floats and of ints to them; in 60% of the histories with 2-3 classes one or two tunable OBJECTS are shared: bound by 2-3 classes, each "
+                "under its own attribute name (20% the same name), hint as subscript on the object or annotated by every class (the model computes the program: "
+                "Model.prog_class); 40% of the classes are hierarchies (chain of 1-3 classes, optional mixin) in which names are REDEFINED: the tunable a class "
                 "resolves a name to shadows declarations of the same name in its bases (other default / writeDefault / subtable / type), plain attributes "
                 "shadow tunables and vice versa, NT reads at the keys of shadowed definitions; owner classes ordinary / with __len__ / with __bool__ / list subclass (instances created "
                 "falsy, truthiness changing inside the history); 1-3 instances under components/autonomous/robot/other prefixes, pre-published topics, "
@@ -2229,8 +2496,11 @@ def run(ctx):
             if got != ROBOT_DOC or not robot_values_ok(rob):
                 return [{"kind": "robot", "fingerprint": "c09-magicrobot-binding",
                          "what": "a real MagicRobot publishes its tunables as %s (left.gain=%r right.gain=%r after "
-                                 "left.gain=9; empty container-like component hopper: cap reads %s after hopper.cap=6); documented: %s"
-                                 % (json.dumps(got), rob["left"], rob["right"], rob.get("hopper"), json.dumps(ROBOT_DOC))}]
+                                 "left.gain=9; empty container-like component hopper: cap reads %s after hopper.cap=6; "
+                                 "left/right kf (`kf: float = tunable(0)`) read %s after left.kf=0.75; the shared preset PRESET = tunable(0.25) "
+                                 "bound as Comp.kp / Hopper.hop_kp / R.drive_kp reads %s after left.kp=0.5); documented: %s"
+                                 % (json.dumps(got), rob["left"], rob["right"], rob.get("hopper"), rob.get("kf"), rob.get("kp"),
+                                    json.dumps(ROBOT_DOC))}]
         # 2. everything recorded in this run, then a bigger batch
         for c, o in pairs:
             if oracle_case(c, o) is not None:
@@ -2266,6 +2536,8 @@ def replay(ctx, obj):
     kind = obj.get("kind")
     if kind == "input" and "case" in obj:
         c = refresh_case(retag(obj["case"], fresh_tag()))
+        for line in shared_defs(c):
+            print("%s      # ONE tunable object, bound by several classes below" % line)
         for k, ds in enumerate(c["classes"]):
             es = case_eff_src(c, k)
             tk = case_tkind(c, k)
